@@ -18,6 +18,7 @@ import ast
 from ..model import AnalysisError, dotted, unparse, walk_local
 from ..engines import pattern, owner
 from ..engines.linform import canon
+from ._common import resolve_local, conditions_at
 
 
 def _unalias_fields(fn, name='superdict'):
@@ -63,6 +64,47 @@ def _unalias_fields(fn, name='superdict'):
     return new
 
 
+def _host_fill(rep, mod, fns):
+    """The reference cell that every state / transition cell is copied from is filled with *all* host atoms: the fill
+    loop runs over every (chemistry, index) of the crystal (``crys.atomindices``; the calculator's own interstitial
+    sublattice may be skipped) and passes that atom to ``fillperiodic``.  ``fillperiodic(ci)`` with its default
+    ``Wyckoff=True`` fills only the Wyckoff set of ``ci``, so one call per chemistry leaves every other Wyckoff set of
+    that species empty -- unnamed vacancies in every generated cell."""
+    rep.rule('host-fill-complete', 'the reference cell is filled by a loop over every atom index of the crystal')
+    for q, fn in fns:
+        calls = [n for n in walk_local(fn) if isinstance(n, ast.Call) and isinstance(n.func, ast.Attribute) and n.func.attr == 'fillperiodic']
+        if not calls:
+            rep.undecided('%s.makesupercells: no fillperiodic call found' % q)
+            continue
+        for c in calls:
+            loop = c
+            while loop is not None and loop is not fn and not isinstance(loop, ast.For):
+                loop = getattr(loop, '_parent', None)
+            qual = q + '.makesupercells'
+            if not isinstance(loop, ast.For) or not c.args:
+                rep.undecided('%s: fillperiodic call outside a loop' % qual)
+                continue
+            it = unparse(resolve_local(fn, loop.iter))
+            arg = unparse(c.args[0]).replace(' ', '')
+            tgt = unparse(loop.target).replace(' ', '').strip('()')
+            if 'atomindices' in it and arg.strip('()') == tgt:
+                conds = {x for x in conditions_at(fn, c)}
+                extra = [x for x in conds if x.replace(' ', '') not in ('not(c==self.chem)', 'c!=self.chem', 'not(%s==self.chem)' % tgt.split(',')[0],
+                                                                        '%s!=self.chem' % tgt.split(',')[0])]
+                ok = not extra
+                rep.ob('host-fill-complete', mod, c, '%s: for %s in %s: %s' % (qual, tgt, it, unparse(c)[:60]), ok,
+                       '' if ok else 'the fill is skipped under %s: host atoms are missing from every generated cell' % '; '.join(extra),
+                       engine='flow', qual=qual)
+            elif ('Nchem' in it or 'range(' in it) and isinstance(c.args[0], ast.Tuple) and len(c.args[0].elts) == 2 \
+                    and isinstance(c.args[0].elts[1], ast.Constant):
+                rep.ob('host-fill-complete', mod, c, '%s: for %s in %s: %s' % (qual, tgt, it, unparse(c)[:60]), False,
+                       'one call per chemistry with the fixed site index %s: fillperiodic fills (at most) the Wyckoff set of that one site, so '
+                       'a species that occupies several Wyckoff sets is left with empty sites -- vacancies the tag does not name'
+                       % unparse(c.args[0].elts[1]), engine='flow', qual=qual)
+            else:
+                rep.undecided('%s: fill loop over %s not recognised' % (qual, it[:60]))
+
+
 def run(model, rep, tier):
     rep.explanation = __doc__.strip()
     from ._common import caches_for
@@ -79,6 +121,7 @@ def run(model, rep, tier):
     fv = model.func('OnsagerCalc', 'VacancyMediated.makesupercells')
     fi, fv = _unalias_fields(fi), _unalias_fields(fv)
     npair = 0
+    _host_fill(rep, mod, (('Interstitial', fi), ('VacancyMediated', fv)))
     for q, fn in (('Interstitial', fi), ('VacancyMediated', fv)):
         for lp in [n for n in walk_local(fn) if isinstance(n, ast.For) and isinstance(n.iter, ast.Call) and dotted(n.iter.func) == 'zip'
                    and len(n.iter.args) == 2 and 'self.tags[' in unparse(n.iter.args[1])]:
